@@ -13,16 +13,16 @@ ENTRIES = [(COX, "CoxeterGroup." + m) for m in (
 
 
 def run(ctx):
-    D.rule_t1(ctx, ENTRIES,
+    ctx.do(D.rule_t1, ENTRIES,
               "the cosine matrix becomes an object array and every Coxeter "
               "representation constructor raises TypeError")
-    R.rule_dual(ctx)
-    n1(ctx, ["geometry_tools/coxeter.py"], lookup_rels=("geometry_tools/coxeter.py",))
-    CA.rule_c2(ctx, "CoxeterGroup")
-    CA.rule_query_purity(ctx, "CoxeterGroup", [
+    ctx.do(R.rule_dual)
+    ctx.do(n1, ["geometry_tools/coxeter.py"], lookup_rels=("geometry_tools/coxeter.py",))
+    ctx.do(CA.rule_c2, "CoxeterGroup")
+    ctx.do(CA.rule_query_purity, "CoxeterGroup", [
         "bilinear_form", "cartan_representation", "geometric_representation",
         "canonical_representation", "cartan_matrix", "tits_vinberg_rep",
         "hyperbolic_rep", "automaton", "standard_subgroup"])
-    u1(ctx, ENTRIES, min_functions=15)
+    ctx.do(u1, ENTRIES, min_functions=15)
     ctx.r.assume("involutions, braid relations, form preservation and "
                  "triangle angles are numerical and not decided")
